@@ -66,6 +66,8 @@ func genShapes(rng *rand.Rand) ([]rig.Attr, []string) {
 	add("med", func(a *rig.Attr) { a.MED += 7; a.PathID = 1 })
 	add("nexthop", func(a *rig.Attr) { a.NextHop = 0xC6336409; a.PathID = 7 })
 	add("communities", func(a *rig.Attr) { a.Comms = append(a.Comms, 65000<<16|6); a.PathID = 1 })
+	add("large-communities", func(a *rig.Attr) { a.LComms = [][3]uint32{{64999, 1, 2}} })
+	add("no-advertise", func(a *rig.Attr) { a.Comms = append(append([]uint32{}, a.Comms...), 0xFFFFFF02); a.MED += 3 })
 	add("other-neighbour", func(a *rig.Attr) {
 		o := rig.Sources[1-indexOf(src)]
 		a.Source, a.BGPID, a.NextHop = o.IP, o.BGPID, o.IP
@@ -84,6 +86,8 @@ func indexOf(s rig.Src) int {
 }
 
 var shapeNames []string
+
+const noAdvertiseShape = 8
 
 func genHist(rng *rand.Rand, nops int) hist {
 	h := hist{Universe: gen.Universe(rng, rng.IntN(3) != 0, 6)}
@@ -106,7 +110,7 @@ func genHist(rng *rand.Rand, nops int) hist {
 	}
 	present := map[[2]int]bool{}
 	// bias towards few shapes so that identifiers are shared between prefixes and released in every order
-	hot := []int{0, 0, 0, 1, 2, 3, 4, 5, 6, 7}
+	hot := []int{0, 0, 0, 1, 2, 3, 4, 5, 6, 7, 8, 9}
 	jumpAt := -1
 	if h.Cursor == 0 && rng.IntN(3) == 0 {
 		jumpAt = 10 + rng.IntN(nops/2) // identifiers 1.. are in use by then
@@ -137,12 +141,19 @@ func genHist(rng *rand.Rand, nops int) hist {
 		}
 		h.Ops = append(h.Ops, op{K: "add", Pfx: pi, Shape: sh})
 		present[k] = true
+		if sh == noAdvertiseShape {
+			for q := range present {
+				if q[0] == pi {
+					delete(present, q)
+				}
+			}
+		}
 	}
 	return h
 }
 
 type stats struct {
-	ops, dumps, pairs, withdrawals, opWithdrawals, sharedReleases, maxInUse int
+	ops, dumps, pairs, withdrawals, opWithdrawals, sharedReleases, maxInUse, stateChecks int
 	sharedID, unhashedPair, wrapped                                         bool
 }
 
@@ -227,7 +238,14 @@ func runHist(h hist) (res result) {
 		// 2b: the withdrawal that RemovePath(prefix, path X) causes carries the identifier X itself was announced with
 		// (not that of another stored path of the prefix that merely ties with X in best path selection)
 		opKey := [2]int{o.Pfx, o.Shape}
-		if o.K == "add" {
+		if o.K == "add" && o.Shape == noAdvertiseShape {
+			// never exported; the Adj-RIB-Out gives up what it had advertised for the prefix
+			for k := range opAnn {
+				if k[0] == o.Pfx {
+					delete(opAnn, k)
+				}
+			}
+		} else if o.K == "add" {
 			if len(evs) == 1 && evs[0].Kind == "add" {
 				opAnn[opKey] = evs[0].PathID
 			}
@@ -298,6 +316,12 @@ func runHist(h hist) (res result) {
 				}
 			}
 		}
+		// monitor 4: the identifier manager's own books agree with what is stored (an identifier that is never given
+		// back is how "allocation fails although few identifiers are in use" begins)
+		if alloc, used := out.Table.VerifPathIDState(); alloc != len(idUsers) || int(used) != len(idUsers) {
+			viol("allocation-state", vf.F("after", o.K, "direction", map[bool]string{true: "leaked", false: "lost"}[alloc > len(idUsers) || int(used) > len(idUsers)]), fmt.Sprintf("op %d %+v: the stored paths use %d distinct identifiers, the identifier manager holds %d as allocated and counts %d in use", i, o, len(idUsers), alloc, used))
+		}
+		st.stateChecks++
 		for _, n := range idUsers {
 			if n >= 2 {
 				st.sharedID = true
@@ -324,6 +348,13 @@ func validOps(h hist) bool {
 			return false
 		}
 		present[k] = o.K == "add"
+		if o.K == "add" && o.Shape == noAdvertiseShape {
+			for q := range present {
+				if q[0] == o.Pfx {
+					delete(present, q)
+				}
+			}
+		}
 	}
 	return true
 }
@@ -390,7 +421,7 @@ var (
 
 func main() {
 	vf.Main("C11", "exploration", func(r *vf.Run) {
-		r.Rule("PRNG add/remove histories (80 operations) on one add-path Adj-RIB-Out over 6 prefixes with 8 path shapes learned from eBGP neighbours: a base shape, three that differ from it only in attributes the identifier hash does not cover (OTC, an unknown attribute, ATOMIC_AGGREGATE/AGGREGATOR), four that differ in hashed attributes (MED, next hop, communities, other neighbour), three of which arrive with a path identifier of their upstream's numbering (two with the same one); in a third of the histories the allocation cursor starts 0-3 steps before the 32 bit wrap-around, in another third it jumps there in mid-history while low identifiers are in use (verif hook); no per-path marker, so one shape on several prefixes is attribute-identical and shares its identifier, and shared identifiers are released in every order; 70% iBGP sessions (paths exported unchanged), the rest eBGP, RS-client and RR-client sessions. distinct_nontrivial = histories in which an identifier was shared by several prefixes while a path was withdrawn and a prefix held two paths that differ only in un-hashed attributes")
+		r.Rule("PRNG add/remove histories (80 operations) on one add-path Adj-RIB-Out over 6 prefixes with 10 path shapes learned from eBGP neighbours: a base shape, three that differ from it only in attributes the identifier hash does not cover (OTC, an unknown attribute, ATOMIC_AGGREGATE/AGGREGATOR), six that differ in hashed attributes (MED, next hop, communities, large communities, other neighbour, and one carrying NO_ADVERTISE, which is never exported: adding it makes the Adj-RIB-Out drop what it had advertised for the prefix), three of which arrive with a path identifier of their upstream's numbering (two with the same one); in a third of the histories the allocation cursor starts 0-3 steps before the 32 bit wrap-around, in another third it jumps there in mid-history while low identifiers are in use (verif hook); no per-path marker, so one shape on several prefixes is attribute-identical and shares its identifier, and shared identifiers are released in every order; 70% iBGP sessions (paths exported unchanged), the rest eBGP, RS-client and RR-client sessions. distinct_nontrivial = histories in which an identifier was shared by several prefixes while a path was withdrawn and a prefix held two paths that differ only in un-hashed attributes")
 		r.Assume("the Adj-RIB-Out is driven with the calls the Loc-RIB makes (AddPath/RemovePath with the Loc-RIB's own path object content)", "a (prefix, path) pair is added at most once before it is removed")
 		_, replay := r.Replaying()
 		hg := rig.NewHangGuard(replay)
@@ -438,6 +469,7 @@ func main() {
 			r.Count("withdrawals_checked", st.withdrawals)
 			r.Count("withdrawals_matched_to_the_removed_path", st.opWithdrawals)
 			r.Count("withdrawals_while_identifier_shared", st.sharedReleases)
+			r.Count("allocation_state_checks", st.stateChecks)
 			if st.wrapped {
 				r.Count("histories_crossing_the_identifier_wrap_around", 1)
 			}
